@@ -204,6 +204,15 @@ def variants(pid, base_sources):
             skipped.append(name)
         else:
             seeds[name] = patched
+    # the repairs made in /repo, reversed: a fixed finding suppresses nothing, so the defect must be reported again
+    for pf in sorted(glob.glob(os.path.join(VERIF, "reverts", "%s-*.diff" % pid))):
+        name = "revert of fix " + os.path.basename(pf)[:-5]
+        with open(pf) as fobj:
+            patched = apply_unified_diff(base_sources, fobj.read())
+        if patched is None:
+            skipped.append(name + " (does not apply any more)")
+        else:
+            seeds[name] = patched
     for desc, edit in TWINS:
         twin = edit(base_sources)
         if twin is None:
